@@ -40,6 +40,8 @@ func main() {
 	out := fs.String("out", "", "output file")
 	known := fs.String("known", "", "comma separated known-finding keys")
 	trace := fs.Bool("trace", false, "record readable trace")
+	startIdx := fs.Int("start", 0, "first run index (resume)")
+	progress := fs.String("progress", "", "file that receives the index about to be executed")
 	fs.Parse(os.Args[2:])
 
 	ks := runner.KnownSet{}
@@ -61,11 +63,9 @@ func main() {
 	}
 	switch os.Args[1] {
 	case "search":
-		emit(runner.Search(*prop, *tier, *seed, *worker, *workers, *budget, *maxRuns, ks))
+		emit(runner.SearchFrom(*prop, *tier, *seed, *worker, *workers, *budget, *maxRuns, ks, *startIdx, *progress, func(s *runner.Summary) { emit(s) }))
 	case "hashes":
-		for _, l := range runner.Hashes(*prop, *tier, *seed, *from, *to) {
-			fmt.Fprintln(realOut, l)
-		}
+		runner.Hashes(*prop, *tier, *seed, *from, *to, func(l string) { fmt.Fprintln(realOut, l) })
 	case "shrink":
 		rec, err := runner.ReadFail(*in)
 		if err != nil {
